@@ -116,7 +116,7 @@ def rule_r3(chk, rid="C16-R3"):
                 break
         chk.ob(rid, "incidences.blazer._split_ids[order of matched positions]", bad is None,
                "extracted ids follow the order of the index list (which is paired with the other side's index list), the rest keeps its order"
-               if bad is None else f"_split_ids{bad[:2]} = {bad[2]} (want {bad[3]}): the pairing equation<->quantity of the prefetched 1x1 blocks is lost", bm.loc(sp))
+               if bad is None else f"_split_ids{bad[:2]} = {bad[2]} (want {bad[3]}): the pairing equation<->quantity of the prefetched 1x1 blocks is lost", bm.loc(sp), sure=True)
     except fin.NotFinite as ex:
         chk.undecided(rid, "incidences.blazer._split_ids[order of matched positions]", str(ex), bm.loc(sp))
     # both sides are split by index lists computed from the same matching
